@@ -229,9 +229,141 @@ def dcstep_vcs():
     return vcs
 
 
+# --------------------------------------------------------------------------------------------- do_get: stage logic against dcsrch
+DC_ARGS = ('stx', 'fx', 'dx', 'sty', 'fy', 'dy', 'stp', 'fp', 'dp', 'brackt', 'stpmin', 'stpmax', 'delta')
+HAVOC = ('stx', 'fx', 'gx', 'sty', 'fy', 'gy', 'brackt', 'stp')
+
+
+def h_dcstep_obs(wp, n, args, callee):
+    """observation point: the values handed to dcstep are compared with the reference here (under the path condition of the
+    call); afterwards the eight by-reference results are arbitrary (the kernel has its own contract: mt/dcstep)"""
+    if len(args) != 13:
+        raise Unsupported(f'{wp.name}: dcstep with {len(args)} arguments')
+    ins = {}
+    for k, nm in enumerate(DC_ARGS):
+        v = wp.ev(args[k])
+        ins[nm] = wp.conv(v, 'Bool', 'bool').t if nm == 'brackt' else wp.conv(v, 'Real', 'double').t
+    H = wp.head
+    ref = do_get_reference(H)
+    wp.oblige('stage at the interpolation is the reference\'s: 2 iff it was 2 or psi(stp) <= 0 and phi\'(stp) >= 0 (More & Thuente: the modified function is used until then)',
+              f'(= {wp.env["stage"].t} {ref["stage"]})', n)
+    for nm in DC_ARGS:
+        wp.oblige(f'dcstep argument {nm} is the reference\'s (the modified function psi exactly when stage = 1, psi(stp) > 0 and f <= fx; phi otherwise)',
+                  f'(= {ins[nm]} {ref["args"][nm]})', n)
+    outs = {}
+    keys = {}
+    for k, nm in enumerate(DC_ARGS):
+        if k in (0, 1, 2, 3, 4, 5, 6, 9):
+            key = wp.loc(args[k])
+            old = wp.env[key]
+            wp.env[key] = wp.fresh(old.s, key, old.c)
+            outs[nm] = wp.env[key].t
+            keys[nm] = key
+    wp.obs.append({'guard': wp.guard, 'ins': ins, 'outs': outs, 'keys': keys})
+    return V('0', 'Int', 'int')
+
+
+def h_update_obs(wp, n, args, obj):
+    t = wp.conv(wp.ev(args[3]), 'Real', 'double')
+    wp.upd.append((wp.guard, t.t))
+    return step_smt.h_update(wp, n, args, obj)
+
+
+def do_get_reference(H):
+    """dcsrch, one iteration, over the loop-head values H (env of the real loop): written from the Fortran text"""
+    f, g, stp, stage = H['f'].t, H['g'].t, H['stp'].t, H['stage'].t
+    gtest = '(* c1 g0d)'                                  # ftol * ginit
+    psi = f'(- {f} f_0 (* {stp} {gtest}))'                # psi(stp) = phi(stp) - phi(0) - ftol*stp*phi'(0)
+    stage2 = f'(ite (and (= {stage} 1) (<= {psi} 0.0) (>= {g} 0.0)) 2 {stage})'
+    mod = f'(and (= {stage2} 1) (<= {f} {H["fx"].t}) (> {psi} 0.0))'
+    a = {'stx': H['stx'].t, 'sty': H['sty'].t, 'stp': stp, 'brackt': H['brackt'].t, 'stpmin': H['stmin'].t, 'stpmax': H['stmax'].t, 'delta': 'delta',
+         'fx': f'(ite {mod} (- {H["fx"].t} (* {H["stx"].t} {gtest})) {H["fx"].t})', 'dx': f'(ite {mod} (- {H["gx"].t} {gtest}) {H["gx"].t})',
+         'fy': f'(ite {mod} (- {H["fy"].t} (* {H["sty"].t} {gtest})) {H["fy"].t})', 'dy': f'(ite {mod} (- {H["gy"].t} {gtest}) {H["gy"].t})',
+         'fp': f'(ite {mod} (- {f} (* {stp} {gtest})) {f})', 'dp': f'(ite {mod} (- {g} {gtest}) {g})'}
+    return {'stage': stage2, 'mod': mod, 'gtest': gtest, 'args': a}
+
+
+# the Fortran constants p66 = 0.66d0, xtrapl = 1.1d0 are the IEEE doubles nearest to 0.66 / 1.1: the same exact rationals here
+from nvwp import real_lit
+P66, XTRAPL = real_lit('0.66'), real_lit('1.1')
+
+
+def do_get_next(H, o, mod, gtest, stpmin, stpmax, xtol):
+    """what dcsrch does after dcstep returned o = (stx, fx, dx, sty, fy, dy, stp, brackt)"""
+    stx, sty, br = o['stx'], o['sty'], o['brackt']
+    back = {'fx': f'(ite {mod} (+ {o["fx"]} (* {stx} {gtest})) {o["fx"]})', 'gx': f'(ite {mod} (+ {o["dx"]} {gtest}) {o["dx"]})',
+            'fy': f'(ite {mod} (+ {o["fy"]} (* {sty} {gtest})) {o["fy"]})', 'gy': f'(ite {mod} (+ {o["dy"]} {gtest}) {o["dy"]})',
+            'stx': stx, 'sty': sty, 'brackt': br}
+    w, w1 = H['width'].t, H['width1'].t
+    gap = f'(rabs (- {sty} {stx}))'
+    stp1 = f'(ite (and {br} (>= {gap} (* {P66} {w1}))) (+ {stx} (* (/ 1.0 2.0) (- {sty} {stx}))) {o["stp"]})'
+    back['width1'] = f'(ite {br} {w} {w1})'
+    back['width'] = f'(ite {br} {gap} {w})'
+    stmin = f'(ite {br} (rmin {stx} {sty}) (+ {stp1} (* {XTRAPL} (- {stp1} {stx}))))'
+    stmax = f'(ite {br} (rmax {stx} {sty}) (+ {stp1} (* 4.0 (- {stp1} {stx}))))'
+    back['stmin'], back['stmax'] = stmin, stmax
+    stp2 = f'(rmin (rmax {stp1} {stpmin}) {stpmax})'
+    stp3 = f'(ite (or (and {br} (or (<= {stp2} {stmin}) (>= {stp2} {stmax}))) (and {br} (<= (- {stmax} {stmin}) (* {xtol} {stmax})))) {stx} {stp2})'
+    return back, stp3
+
+
+def build_do_get():
+    import adv_smt
+
+    def setup(wp):
+        step_smt.doget_setup(wp)
+        wp.assume('(< g0d 0.0)')
+        wp.obs, wp.upd, wp.inv_calls, wp.head = [], [], 0, None
+
+    def inv(wp):
+        e = wp.env
+        wp.inv_calls += 1
+        if wp.inv_calls == 1:
+            # dcsrch START: stage 1, no bracket, both bracket ends at the origin with (finit, ginit), stmin = 0, stmax = stp + 4 stp,
+            # width = stpmax - stpmin, width1 = 2 width
+            smax = adv_smt.h_stpmax(wp, None, None, None).t
+            init = {'stage': '1', 'stx': '0.0', 'sty': '0.0', 'fx': 'f_0', 'fy': 'f_0', 'gx': 'g0d', 'gy': 'g0d', 'stmin': '0.0', 'stmax': '(+ t0 (* 4.0 t0))',
+                    'width': f'(- {smax} stpmin)', 'width1': f'(* 2.0 (- {smax} stpmin))', 'stp': 't0', 'f': 'f_in', 'g': 'gd_in'}
+            wp.oblige('initialisation is the START block of dcsrch (stage 1, not bracketed, bracket ends at the origin, stmin = 0, stmax = 5 stp, width, width1)',
+                      AND(NOT(e['brackt'].t), *[f'(= {e[k].t} {v})' for k, v in init.items()]))
+        if wp.inv_calls == 2:
+            wp.head = dict(e)
+        return [('loop counter in range', step_smt.counter(wp, 0)), ('stage is 1 or 2', f'(or (= {e["stage"].t} 1) (= {e["stage"].t} 2))'),
+                ('the state is the valid evaluation at the current trial step', f'(and (= {e["state.t"].t} {e["stp"].t}) {e["state.valid"].t})'),
+                ('f and g are the value and the slope of the current trial state', f'(and (= {e["f"].t} {e["state.fx"].t}) (= {e["g"].t} {e["state.dg"].t}))')]
+
+    def body_post(wp, H, e):
+        out = []
+        gs = [o['guard'] for o in wp.obs]
+        one = AND(OR(*gs), *[NOT(AND(gs[a], gs[b])) for a in range(len(gs)) for b in range(len(gs)) if a < b])
+        out.append(('an iteration that goes on has called dcstep exactly once', one))
+        if len(wp.upd) != 1:
+            raise Unsupported(f'{wp.name}: {len(wp.upd)} evaluations in the loop body (the contract expects one)')
+        ref = do_get_reference(H)
+        out.append(('stage after the iteration is the reference\'s', f'(= {e["stage"].t} {ref["stage"]})'))
+        xtol = step_smt.h_eps('eps0')(wp, None, None, None).t
+        smax = adv_smt.h_stpmax(wp, None, None, None).t
+        for o in wp.obs:
+            back, nxt = do_get_next(H, o['outs'], ref['mod'], ref['gtest'], 'stpmin', smax, xtol)
+            for k, v in back.items():
+                out.append((f'after dcstep: {k} is the reference\'s (bracket values mapped back from psi to phi when the modified function was used; width / stmin / stmax update)',
+                            f'(=> {o["guard"]} (= {e[k].t} {v}))'))
+            out.append(('the next trial step is the reference\'s (bisection if the bracket did not shrink by 0.66, clamp to [stpmin, stpmax], fallback to stx when no progress is possible)',
+                        f'(=> {o["guard"]} (and (= {wp.upd[0][1]} {nxt}) (= {e["stp"].t} {nxt})))'))
+        return out
+    inv = step_smt.with_havoc(inv, HAVOC)
+    inv.body_post = body_post
+    return step_smt.mk('mt/do_get', MT, 'lsearchk_morethuente_t::do_get', 'do_get', setup, {1: inv},
+                       'More-Thuente do_get: stage logic and step bookkeeping against MINPACK-2 dcsrch (double treated as real)', post=lambda wp, rv: [],
+                       calls=[(r'^dcstep\|', h_dcstep_obs), (r'^stpmax\|', adv_smt.h_stpmax)], members=[(r'^stpmax\|', adv_smt.h_stpmax), (r'^update\|.*lsearchk', h_update_obs)])
+
+
 def build():
     vcs = dcstep_vcs()
     fns = [dcstep()['fn']]
+    r = build_do_get()
+    vcs += r[0]
+    fns.append(r[1])
     return vcs, fns
 
 
